@@ -327,9 +327,12 @@ def check(ctx):
     check_adapter(ctx)
     check_entry(ctx)
     # C06.UNDEFINED = C03.RAISE-CATCH at the alias lookup
-    from .c03 import check_raise_catch
+    from .c03 import check_raise_catch, check_default_src
     sub = ctx.findings
     before = len(ctx.findings)
     check_raise_catch(ctx)
     for f in ctx.findings[before:]:
         f.rule = 'C06.UNDEFINED'
+    # ... and an undefined reference falls back to the enforcer's default
+    # rule, which the store must therefore carry (= C03.DEFAULT-SRC)
+    ctx.borrow('C06.UNDEFINED', check_default_src)
